@@ -60,6 +60,52 @@ def digest_scope(scope, chunk, chunks):
     return out
 
 
+class _InterruptingFile:
+    """a file opened for writing whose n-th write is followed by KeyboardInterrupt (the user pressed Ctrl-C there)"""
+
+    def __init__(self, fh, nth):
+        self._fh = fh
+        self._left = nth
+
+    def write(self, data):
+        n = self._fh.write(data)
+        self._left -= 1
+        if self._left == 0:
+            self._fh.flush()
+            raise KeyboardInterrupt()
+        return n
+
+    def __getattr__(self, name):
+        return getattr(self._fh, name)
+
+    def __enter__(self):
+        return self
+
+    def __exit__(self, *exc):
+        self._fh.close()
+        return False
+
+    def __iter__(self):
+        return iter(self._fh)
+
+
+def install_interrupt(substr, nth):
+    import builtins
+    import io
+
+    real = io.open
+
+    def opener(file, mode="r", *a, **k):
+        fh = real(file, mode, *a, **k)
+        if isinstance(file, (str, os.PathLike)) and substr in os.fspath(file) and any(c in mode for c in "wax") and "b" not in mode:
+            return _InterruptingFile(fh, nth)
+        return fh
+
+    io.open = opener
+    builtins.open = opener
+    return lambda: (setattr(io, "open", real), setattr(builtins, "open", real))
+
+
 def main():
     mode = sys.argv[1]
     args = json.loads(sys.argv[2])
@@ -96,8 +142,16 @@ def main():
             if r.get("cwd"):
                 os.chdir(r["cwd"])
             tool = p2a_cli if r.get("tool", "p2a") == "p2a" else asm_format_cli
-            res = CliRunner().invoke(tool, r["argv"])
-            codes.append(res.exit_code)
+            undo = install_interrupt(r["interrupt"]["substr"], r["interrupt"]["nth_write"]) if r.get("interrupt") else None
+            try:
+                res = CliRunner().invoke(tool, r["argv"])
+                codes.append(res.exit_code)
+            except KeyboardInterrupt:
+                codes.append(130)
+                continue
+            finally:
+                if undo:
+                    undo()
             if r.get("stdout_to"):
                 Path(r["stdout_to"]).write_text(res.stdout)
         print(json.dumps(codes))
